@@ -68,7 +68,10 @@ class PredEval:
                 tgt = st.targets[0] if isinstance(st, ast.Assign) else st.target
                 if not isinstance(tgt, ast.Name) or (isinstance(st, ast.Assign) and len(st.targets) != 1):
                     raise Unknown(f"assignment target {u(st)[:50]}")
-                env[tgt.id] = self.eval(st.value, fn, env, depth)
+                try:
+                    env[tgt.id] = self.eval(st.value, fn, env, depth)
+                except Unknown as ex:  # not a set of tables (a graph alias, a tag constant ...): only an error if used as one
+                    env[tgt.id] = ex
             elif isinstance(st, ast.AugAssign) and isinstance(st.target, ast.Name):
                 left = env.get(st.target.id)
                 if left is None:
@@ -98,7 +101,12 @@ class PredEval:
         prog = self.prog
         if isinstance(e, ast.Name):
             if e.id in env:
+                if isinstance(env[e.id], Unknown):
+                    raise env[e.id]
                 return env[e.id]
+            srcs = [x for x in prog.value_sources(fn, e) if not (isinstance(x, ast.Name) and x.id == e.id)]
+            if len(srcs) == 1:
+                return self.eval(srcs[0], fn, env, depth + 1)
             raise Unknown(f"name {e.id}")
         if isinstance(e, ast.BinOp):
             return self.combine(e.op, self.eval(e.left, fn, env, depth), self.eval(e.right, fn, env, depth))
@@ -137,12 +145,19 @@ class PredEval:
                 raise Unknown("comprehension with several generators")
             g = e.generators[0]
             it = g.iter
+            tagged = self._tag_comprehension(e, fn)
+            if tagged is not None:
+                return self.tag_atom(tagged)
             if not (isinstance(it, ast.Attribute) and it.attr in ("in_degree", "out_degree")):
                 if isinstance(it, ast.Call) and isinstance(it.func, ast.Attribute) and it.func.attr in ("in_degree", "out_degree") and not it.args:
                     it = it.func
                 else:
                     raise Unknown(f"comprehension over {u(it)[:50]}")
             gexpr = it.value
+            if isinstance(gexpr, ast.Name):  # a local alias of the graph
+                srcs = prog.value_sources(fn, gexpr)
+                if len(srcs) == 1:
+                    gexpr = srcs[0]
             if not (is_self_attr(gexpr) and gexpr.attr in self.tg):
                 raise Unknown(f"degree view of {u(gexpr)} (expected the dataset-only sub-graph)")
             if not (isinstance(g.target, ast.Tuple) and len(g.target.elts) == 2 and all(isinstance(x, ast.Name) for x in g.target.elts)):
@@ -188,6 +203,37 @@ class PredEval:
         if tag not in ("selfloop", "source_only", "target_only"):
             raise Unknown(f"tag {tag!r} has no atom")
         return lambda v: v[tag]
+
+    def _tag_comprehension(self, e: ast.AST, fn: Fn) -> Optional[str]:
+        """{t for t, attr in <graph>.nodes(data=True) if attr.get(TAG) is True [and isinstance(t, DATASET)]} -> TAG (folded), else None."""
+        g = e.generators[0]
+        it = g.iter
+        if not (isinstance(it, ast.Call) and isinstance(it.func, ast.Attribute) and it.func.attr == "nodes" and any(kw.arg == "data" for kw in it.keywords)):
+            return None
+        if not (isinstance(g.target, ast.Tuple) and len(g.target.elts) == 2 and all(isinstance(x, ast.Name) for x in g.target.elts)):
+            return None
+        tname, aname = g.target.elts[0].id, g.target.elts[1].id
+        if not (isinstance(e.elt, ast.Name) and e.elt.id == tname):
+            return None
+        conds = []
+        for c in g.ifs:
+            conds += c.values if isinstance(c, ast.BoolOp) and isinstance(c.op, ast.And) else [c]
+        tag = None
+        for c in conds:
+            call = c.left if isinstance(c, ast.Compare) and len(c.ops) == 1 and isinstance(c.ops[0], (ast.Is, ast.Eq)) and isinstance(c.comparators[0], ast.Constant) and c.comparators[0].value is True else c
+            if isinstance(call, ast.Call) and isinstance(call.func, ast.Attribute) and call.func.attr == "get" and isinstance(call.func.value, ast.Name) and call.func.value.id == aname and call.args:
+                vals = set()
+                for src in self.prog.value_sources(fn, call.args[0]):
+                    v = self.prog.try_fold(src, fn.mod, fn)
+                    vals.add(v if isinstance(v, str) else None)
+                if len(vals) != 1 or None in vals:
+                    raise Unknown(f"tag expression {u(call.args[0])} does not fold to one constant")
+                tag = vals.pop()
+            elif isinstance(c, ast.Call) and isinstance(c.func, ast.Name) and c.func.id == "isinstance":
+                continue
+            else:
+                raise Unknown(f"condition `{u(c)[:50]}` in a tag comprehension")
+        return tag
 
     def _is_tag_retriever(self, fn: Fn) -> bool:
         """A method `f(self, tag)` returning {t for t, attr in self.graph.nodes(data=True) if attr.get(tag) is True and isinstance(t, DATASET)}."""
@@ -509,7 +555,7 @@ def _tags_referenced(prog: Prog, H: Cls, m: Fn, _seen=None) -> set[str]:
                 elif init is not None and m is not init:
                     for k in ast.walk(init.node):
                         if isinstance(k, ast.Assign) and len(k.targets) == 1 and is_self_attr(k.targets[0], n.attr):
-                            for kk in ast.walk(k.value):
+                            for kk in prog.influences(init, k.value):
                                 v2 = prog.try_fold(kk, init.mod, init) if isinstance(kk, ast.Attribute) else None
                                 if isinstance(v2, str) and v2 in ("selfloop", "source_only", "target_only"):
                                     out.add(v2)
